@@ -63,6 +63,19 @@ TraceCreate ==
     /\ handle' = "none" /\ off' = 0 /\ last' = PosZero /\ vprev' = 0 /\ vlast' = << >> /\ pre' = [op |-> "create"]
     /\ Judge(P!WellFormed(Ev.ends) /\ Len(Ev.pieces) = Len(Ev.ends), "harness: ill-formed object")
 
+\* an in-place edit through the public fields (Library!EditEnd / PopPiece and the driver's wider family of edits):
+\* the object is whatever the caller made it; only the borrow rule and well-formedness of the harness's own edit
+TraceEdit ==
+    /\ IsOp("edit")
+    /\ Judge(Free, "harness: mutation while borrowed")
+    /\ ends' = Ev.ends /\ pieces' = Ev.pieces
+    /\ pre' = [op |-> "edit"]
+    /\ Keep(<< kind, handle, off, last, vprev, vlast >>)
+\* (No well-formedness verdict here: an edit of ONE breakpoint is well-formed only relative to the breakpoints the
+\* library's previous operation left, so an ill-formed object after an edit may be that operation's fault -- which its
+\* own clause reports.  The clauses whose properties quantify over well-formed objects are guarded by WF below.)
+WF == P!WellFormed(ends) /\ Len(pieces) = Len(ends)
+
 \* ---------------------------------------------------------------- lane-wise mutations
 Mutation(name, exact) ==
     /\ IsOp(name)
@@ -141,11 +154,11 @@ TraceIntegrate ==
     /\ pre' = [op |-> "integrate", ends |-> ends, pieces |-> pieces]
     /\ Keep(<< handle, off, last, vprev, vlast >>)
     /\ IF kind = "log"
-       THEN IF ~(FiniteT(pieces) /\ FiniteT(Ev.pieces) /\ PosAll(ends) /\ PosAll(<< Ev.kx >>) /\ IsFinite(Ev.ky) /\ InRange(Val(Ev.ky))) THEN TRUE
+       THEN IF ~(WF /\ FiniteT(pieces) /\ FiniteT(Ev.pieces) /\ PosAll(ends) /\ PosAll(<< Ev.kx >>) /\ IsFinite(Ev.ky) /\ InRange(Val(Ev.ky))) THEN TRUE
             ELSE /\ Tally(11, TRUE)
                  /\ JudgeIn("integrate", Ev.ends = ends /\ Ev.kind = (IF Len(pieces[1]) = 5 THEN "q" ELSE "intoflog"), "breakpoints or form changed")
                  /\ JudgeIn("integrate", LogIntegrateOK(Val(Ev.kx), Val(Ev.ky)), "piecewise integral of a log-polynomial")
-       ELSE IF ~(FiniteT(pieces) /\ FiniteT(Ev.pieces) /\ Finite(ends) /\ IsFinite(Ev.kx) /\ IsFinite(Ev.ky)
+       ELSE IF ~(WF /\ FiniteT(pieces) /\ FiniteT(Ev.pieces) /\ Finite(ends) /\ IsFinite(Ev.kx) /\ IsFinite(Ev.ky)
                  /\ InRange(Val(Ev.ky))
                  /\ \A j \in 1..Len(pieces) :
                        /\ TermsInScope(B!Indef(Vals(pieces[j])), Val(Ev.kx), 9)
@@ -174,7 +187,7 @@ Combine(name, sub) ==
     /\ ends' = Ev.ends /\ pieces' = Ev.pieces
     /\ pre' = [op |-> name, ends |-> ends, pieces |-> pieces]
     /\ Keep(<< kind, handle, off, last, vprev, vlast >>)
-    /\ IF ~(FiniteT(pieces) /\ FiniteT(Ev.gpieces) /\ FiniteT(Ev.pieces)) THEN TRUE
+    /\ IF ~(WF /\ FiniteT(pieces) /\ FiniteT(Ev.gpieces) /\ FiniteT(Ev.pieces)) THEN TRUE
        ELSE LET f == [ends |-> ends, pieces |-> ValsT(pieces)]
                 g == [ends |-> Ev.gends, pieces |-> ValsT(Ev.gpieces)]
                 \* the merge compares breakpoints: run it on bit patterns with the IEEE order
@@ -217,12 +230,21 @@ QueryInScope(j, x) ==
        ELSE (~SignBit(x) /\ ~IsZero(x) /\ BRLt(BRPow2(-900), Val(x)) /\ BRLt(Val(x), BRPow2(60)))
 ValueOK(x, y) ==
     LET j == P!SelectScan(ends, x) IN
-    QueryInScope(j, x) => (Tally(12, TRUE) /\ IsFinite(y) /\ BRLe(BRAbs(BRSub(Val(y), PieceVal(j, Val(x)))), PieceTol(j, Val(x))))
+    (WF /\ QueryInScope(j, x)) => (Tally(12, TRUE) /\ IsFinite(y) /\ BRLe(BRAbs(BRSub(Val(y), PieceVal(j, Val(x)))), PieceTol(j, Val(x))))
+
+\* Which piece answered.  The event carries `match`: the pieces whose OWN evaluation at x returns exactly the logged
+\* bits.  C02 / C03 / C12 state that the answer is, bit for bit, the value of the selected piece -- relative to that
+\* piece's own evaluation, whose accuracy is another property's business (C01, C09, C10): a tree with an inaccurate
+\* polynomial evaluator still selects correctly, and these clauses must stay silent on it.  (ValueOK above, the
+\* absolute version, was the first formulation; it alarmed on seeded evaluation bugs under the selection properties.)
+PieceOK(x) ==
+    WF => /\ Tally(12, TRUE)
+          /\ \E k \in 1..Len(Ev.match) : Ev.match[k] = P!SelectScan(ends, x)
 
 TraceEval ==
     /\ IsOp("eval")
     /\ Keep(svars)
-    /\ JudgeIn("eval", ValueOK(Ev.x, Ev.y), "direct evaluation")
+    /\ JudgeIn("eval", PieceOK(Ev.x), "direct evaluation")
 
 TraceNew ==
     /\ IsOp("new")
@@ -242,7 +264,7 @@ TraceQuery ==
                    ELSE IF Le(last, x) THEN scan[off]
                    ELSE IF cand = {} THEN 0 ELSE CHOOSE i \in cand : \A k \in cand : k <= i
        IN  /\ off' = Ev.off /\ last' = Ev.last
-           /\ JudgeIn("query", ValueOK(x, Ev.y), "evaluator answer")
+           /\ JudgeIn("query", PieceOK(x), "evaluator answer")
            /\ Drift(Ev.off = moff /\ Ev.tail = front - moff /\ (IsNaN(x) \/ Ev.last = x), "cursor")
     /\ Keep(<< kind, ends, pieces, handle, vprev, vlast, pre >>)
 
@@ -259,7 +281,7 @@ TraceVNext ==
     /\ IsOp("vnext")
     /\ Judge(vprev > 0 /\ (vlast = << >> \/ Le(vlast[1], Ev.x)), "harness: batch not non-decreasing")
     /\ vprev' = P!SelectScan(ends, Ev.x) /\ vlast' = << Ev.x >>
-    /\ JudgeIn("vnext", ValueOK(Ev.x, Ev.y), "evaluate_v answer")
+    /\ JudgeIn("vnext", PieceOK(Ev.x), "evaluate_v answer")
     /\ Keep(<< kind, ends, pieces, handle, off, last, pre >>)
 TraceVEnd ==
     /\ IsOp("vend")
@@ -267,6 +289,6 @@ TraceVEnd ==
     /\ Keep(<< kind, ends, pieces, handle, off, last, pre >>)
 
 TraceNext ==
-    \/ TraceCreate \/ TraceScale \/ TraceNeg \/ TraceTranslate \/ TraceDerive \/ TraceIntegrate \/ TraceAdd \/ TraceSub
+    \/ TraceCreate \/ TraceEdit \/ TraceScale \/ TraceNeg \/ TraceTranslate \/ TraceDerive \/ TraceIntegrate \/ TraceAdd \/ TraceSub
     \/ TraceEval \/ TraceNew \/ TraceQuery \/ TraceDrop \/ TraceVStart \/ TraceVNext \/ TraceVEnd
 =============================================================================
